@@ -5,19 +5,7 @@ import json
 IDS = ["C%02d" % i for i in range(1, 21)]
 BASE_OFF = "cd /repo && for m in . cmd/application cmd/registration-server util/station-debug; do (cd $m && go test -vet=off -count=1 -timeout 25m ./...); done"
 
-# id -> dict(level, text, note, technique, design_ref, engine)
-CLAIMED = {
- "C13": dict(level="model_checking", engine="vsched",
-   text="Every interleaving (no preemption bound, state-key pruning) of k<=2 (quick) / k<=3 (thorough) real RegisterBidirectional calls (v4, v6, dual stack) with m<=2 (3) real ReloadSubnets calls is executed on the real RegProcessor under a controlled scheduler whose RWMutex model has Go's writer preference; oracle: no deadlock, every request answered from one subnet set in full, every reload returns.",
-   note="Trusted: the vsync RWMutex model (announce/acquire), the vinstr import rewrite of regprocessor.go, scheduling points at lock acquisitions only. Data races are out of scope of this check.",
-   technique="stateless DFS over thread interleavings of the real code under a controlled scheduler (explicit enumeration, state-key pruning)",
-   design_ref="DESIGN.md section 3 C13"),
- "C14": dict(level="model_checking", engine="vsched",
-   text="Part A enumerates completely the cross product subnet-configuration grammar (3072 configs: 1-3 groups (5 in thorough) over 12 group templates incl. /31 /32 /128, leading-zero and all-zero networks, overlapping/duplicate CIDRs, empty groups, weights 0/1/9) x 29 seeds (205 thorough) x libver 0-4 x family x generation {known, removed, unknown} through the real PhantomIPSelector.Select and the client SelectPhantom, and every offset of every <=256-address subnet through selectAddrFromSubnetOffset (bijection). Part B explores all interleavings of 2-3 concurrent selections with the global math/rand operations of compat.go as scheduling points; oracle: concurrent result == serial result.",
-   note="Seed values outside the alphabet are not covered. Part B sees only math/rand/weightedrand global-source operations as scheduling points (vrand/vwr shims via vinstr); other shared state would need the -race companion.",
-   technique="complete cross-product enumeration on the real selector + stateless DFS over interleavings of global-rand operations",
-   design_ref="DESIGN.md section 3 C14"),
-}
+CLAIMED = json.load(open(__import__("os").path.join(__import__("os").path.dirname(__import__("os").path.abspath(__file__)), "claims.json")))
 
 NOT_YET = "check not built yet (work in progress; see DESIGN.md section 3)"
 
